@@ -18,6 +18,7 @@
  *   record_remaining_buffer, unlink_shmem_list - and the result is printed:
  *      STATUS <how the producer ended>
  *      SHL <idx>...          shmem_list after the pipe was drained (buffer indexes)
+ *      SHF <flag>...         the flag words of those buffers
  *      WL <size>...          sizes of the buffers queued after flush_shmem_list
  *      FILE <hex>            content of <dir>/<tid>.dat
  *
@@ -271,6 +272,20 @@ static int mode_kill(int argc, char **argv)
 		int idx = -1;
 		sscanf(sl->id, "/uftrace-%*[^-]-%*d-%d", &idx);
 		printf(" %d", idx);
+	}
+	printf("\nSHF");
+	list_for_each_entry(sl, &shmem_list_head, list) {
+		char name[160];
+		int fd;
+		unsigned hdr[2] = { 0, 0 };
+		snprintf(name, sizeof(name), "/dev/shm%s", sl->id);
+		fd = open(name, O_RDONLY);
+		if (fd >= 0) {
+			if (read(fd, hdr, sizeof(hdr)) < 0)
+				hdr[1] = 9999;
+			close(fd);
+		}
+		printf(" %u", hdr[1]);
 	}
 	printf("\n");
 	flush_shmem_list(dir, bufsize);
